@@ -4,7 +4,6 @@ package verifsim
 
 import (
 	"fmt"
-	"runtime"
 	"sort"
 	"strings"
 	"sync"
@@ -57,20 +56,6 @@ const (
 )
 
 var stratNames = []string{"uniform", "sticky", "roundrobin", "starve", "pct"}
-
-func gid() uint64 {
-	var buf [64]byte
-	n := runtime.Stack(buf[:], false)
-	// "goroutine 123 ["
-	var id uint64
-	for _, c := range buf[len("goroutine "):n] {
-		if c < '0' || c > '9' {
-			break
-		}
-		id = id*10 + uint64(c-'0')
-	}
-	return id
-}
 
 func (s *Sched) lookup() *task {
 	g := gid()
@@ -472,4 +457,16 @@ func YieldW(site string) {
 		return
 	}
 	s.park(t, site)
+}
+
+// GOMAXPROCS is the seam for runtime.GOMAXPROCS(n) reads in instrumented
+// code: instrumented call sites become verifsim.GOMAXPROCS(runtime.GOMAXPROCS(n), n).
+// With an active run that simulates a processor count and n <= 0 (a query)
+// the simulated value is returned; the real setting stays small so that
+// sixteen worker processes do not oversubscribe the machine.
+func GOMAXPROCS(real int, n int) int {
+	if r := cur.Load(); r != nil && r.SimProcs > 0 && n <= 0 {
+		return r.SimProcs
+	}
+	return real
 }
